@@ -175,6 +175,24 @@ def run(chk):
     chk.control("K2-byteorder", ("K2-byteorder", "ctl_signed_bytes") in got, "two plain-char bytes ordered with <")
     chk.control("K2-byteorder/silent", ("K2-byteorder", "ctl_unsigned_bytes") not in got, "unsigned byte comparison must not be reported")
     chk.floor("K13-highwater", 1)
+    # the metadata writer's block buffer and its fill level (a writer-side buffer bound: what runs over the 8 KiB block
+    # lands in the writer's own bookkeeping and is then written out as metadata)
+    from ..slack import run_fill
+    run_fill(chk, load_program("gensquashfs"), only_structs={"struct.sqfs_meta_writer_t"})
+    chk.floor("K6-fill", 3)
+    from .c16 import rule_type_twins
+    rule_type_twins(chk, load_program("gensquashfs"))
+    rule_type_twins(chk, load_program("rdsquashfs"))
+    chk.floor("K12-twins", 5)
+    # memory errors in the packing run: the block processor's read-back buffers (K6 with per-member allocation sites)
+    from ..k6 import run_k6
+    from .c08 import BP_EXCEPTIONS
+    run_k6(chk, load_program("gensquashfs"), {"lib/sqfs/src/block_processor/block_processor.c"}, BP_EXCEPTIONS, "K6")
+    from ..capagree import run_capagree
+    run_capagree(chk, load_program("gensquashfs"))
+    chk.floor("K6-capagree", 3)
+    from .c10 import same_bound_rule
+    same_bound_rule(chk, load_program("rdsquashfs"))
     # a write error that is lost lets the packer exit 0 with an image that does not read back: the error-flow rules of
     # C13 that decide 'a failure is not forgotten' are necessary conditions here as well
     from .c13 import rule_e4, rule_e7, tristate_functions
